@@ -128,6 +128,18 @@ def with_swapped_twins(spec: "GraphSpec") -> "GraphSpec | None":
             edges.append((s_, so, twin, names[(k + 1) % len(names)]))
         added = True
     return GraphSpec(nodes, edges, spec.tag + ":twins") if added else None
+def with_double_edges(spec: "GraphSpec") -> "GraphSpec | None":
+    """every consumer reads the output of its first producer a second time under another input name (what
+    `a.multiply(a)` builds): two inputs of one node wired to one upstream output"""
+    edges = list(spec.edges)
+    seen = set()
+    for (s_, so, d, iname) in spec.edges:
+        if d not in seen:
+            seen.add(d)
+            edges.append((s_, so, d, "again"))
+    return GraphSpec(spec.nodes, edges, spec.tag + ":double-edges", spec.sinks_mode) if seen else None
+
+
 NAMESETS = {
     "unique": lambda i: f"n{i}",
     "dotted": lambda i: ["a.b", "a", "a.b.c", ".a", "0", "n 1", "a/b", "ü"][i % 8],   # unique, full of separators
